@@ -1,7 +1,9 @@
 package sched
 
 import (
+	"encoding/json"
 	"fmt"
+	"os"
 	"strings"
 	"time"
 
@@ -150,3 +152,61 @@ func (x *Explorer) audit(choices []int, want Result, times int) {
 
 // Outcomes returns the number of distinct observable outcomes seen.
 func (x *Explorer) Outcomes() int { return len(x.outcomes) }
+
+// ReplaySpec is what a replay file of an E2 check carries.
+type ReplaySpec struct {
+	Scenario string `json:"scenario"`
+	Choices  []int  `json:"choices"`
+}
+
+// LoadReplay reads $VERIF_REPLAY (written by ./check for a violation). nil if not in replay mode.
+func LoadReplay() *ReplaySpec {
+	p := os.Getenv("VERIF_REPLAY")
+	if p == "" {
+		return nil
+	}
+	b, err := os.ReadFile(p)
+	if err != nil {
+		panic("HARNESS: cannot read replay file: " + err.Error())
+	}
+	var f struct {
+		Replay ReplaySpec `json:"replay"`
+	}
+	if err := json.Unmarshal(b, &f); err != nil {
+		panic("HARNESS: bad replay file: " + err.Error())
+	}
+	return &f.Replay
+}
+
+// ReplayOne re-executes exactly the recorded execution (no exploration) and records its verdict.
+func (x *Explorer) ReplayOne(r *ReplaySpec) {
+	c := NewChooser(r.Choices)
+	res := x.Run(c)
+	if c.Diverge != "" {
+		panic("HARNESS: " + c.Diverge)
+	}
+	x.Report.Eval(1)
+	x.Report.Trace(1)
+	x.Report.State(1)
+	x.Report.Trans(int64(len(c.Choices)))
+	x.Report.Distinct(res.Outcome)
+	x.Report.Sample(map[string]any{"scenario": x.Scenario, "choices": r.Choices, "trace": res.Trace})
+	fmt.Printf("REPLAY scenario=%s\n  %s\n", x.Scenario, strings.Join(res.Trace, "\n  "))
+	if res.Violation != "" {
+		x.Report.Violate(x.Scenario+"|"+res.Key, fmt.Sprintf("scenario %s: %s\n  schedule: %s", x.Scenario, res.Violation, strings.Join(res.Trace, " ; ")),
+			map[string]any{"scenario": x.Scenario, "choices": c.Choices})
+	} else {
+		fmt.Println("REPLAY: the property holds on this execution")
+	}
+}
+
+// ExploreOrReplay runs the DFS, or, in replay mode, only the recorded execution of the matching scenario.
+func (x *Explorer) ExploreOrReplay() bool {
+	if r := LoadReplay(); r != nil {
+		if r.Scenario == x.Scenario {
+			x.ReplayOne(r)
+		}
+		return true
+	}
+	return x.Explore()
+}
